@@ -28,7 +28,7 @@ def configs(tier, seed):
 
 def fixtures(cfg):
     if cfg["h"] == "schedule":
-        return [dict(b=10, t=2, n=10), dict(b=0, t=1, n=1), dict(b=3, t=3, n=2)]
+        return [dict(b=10, t=2, n=10, nobs=0), dict(b=0, t=1, n=1, nobs=1), dict(b=3, t=3, n=2, nobs=2)]
     if cfg["h"] == "stream":
         return [dict(seed=0, n_chains=2, chain_index=1, verbose=False), dict(seed=12345, n_chains=5, chain_index=0, verbose=True)]
     if cfg["h"] == "vi":
@@ -38,9 +38,15 @@ def fixtures(cfg):
     return [dict()]
 
 
-def _mk_model(core):
+def _mk_model(core, ctx=None):
+    # how many observations the model holds (none yet - the first round of a screen -, or some): the schedule is the same
+    nobs = int(ctx.int("nobs", 0, 2)) if ctx is not None else 3
+
     class Counting(core.MCMCModel):
+        """a model that counts its steps; the whole BayesianModel / MCMCModel interface is there"""
+
         def __init__(self):
+            self.nobs = nobs
             self.steps = 17  # stale state from an earlier run: reset must clear it
             self.resets = []
             self.rng_ = None
@@ -59,6 +65,16 @@ def _mk_model(core):
 
         def get_model_state(self):
             return self.steps
+
+        def n_obs(self):
+            return self.nobs
+
+        def _add_observations(self, data):
+            self.nobs += int(data.size)
+
+        @property
+        def rng(self):
+            return self.rng_
     return Counting()
 
 
@@ -68,7 +84,7 @@ def h_schedule(ctx, cfg):
     b = int(ctx.int("b", 0, cfg["bmax"]))
     t = int(ctx.int("t", 1, cfg["tmax"]))
     n = int(ctx.int("n", 1, cfg["nmax"]))
-    m = _mk_model(core)
+    m = _mk_model(core, ctx)
     r = sampling.sample(m, core.ThetaHolder(n_thetas=n), seed=0, n_chains=2, chain_index=1, n_burnin=b, thin=t)
     ctx.observe("thetas", list(r.thetas))
     ctx.prove(len(m.resets) == 1, "model reset exactly once")
@@ -96,7 +112,7 @@ def h_lemma(ctx, cfg):
         return h_schedule_replay(ctx)
     b, t, n = ctx.int("b", 0), ctx.int("t", 1), ctx.int("n", 1)
     i = ctx.int("i", 0)
-    m = _mk_model(core)
+    m = _mk_model(core, ctx)
     calls = []
     saved = sampling.trange
 
@@ -132,7 +148,7 @@ def h_schedule_replay(ctx):
     b, t, n, i = ctx.int("b", 0), max(1, ctx.int("t", 1)), max(1, ctx.int("n", 1)), ctx.int("i", 0)
     b, t, n = min(b, 50), min(t, 20), min(n, 20)
     i = i % (n * t)
-    m = _mk_model(core)
+    m = _mk_model(core, ctx)
     r = sampling.sample(m, core.ThetaHolder(n_thetas=n), seed=0, n_chains=1, chain_index=0, n_burnin=b, thin=t)
     ctx.prove(list(r.thetas) == [b + t * (j + 1) for j in range(n)], "a state is recorded at iteration i iff t divides i+1")
     ctx.prove(m.steps == b + n * t, "each iteration advances the model by exactly one step")
@@ -146,7 +162,7 @@ def h_stream(ctx, cfg):
     nc = ctx.int("n_chains", 1)
     ci = ctx.int("chain_index", 0)
     ctx.assume(ci < nc, "chain index below the number of chains")
-    m = _mk_model(core)
+    m = _mk_model(core, ctx)
     # with the package's loggers at DEBUG (what --verbose configures) or at their default level: the same generator
     import logging
     loggers = [logging.getLogger("batchie")] + [v for v in vars(sampling).values() if isinstance(v, logging.Logger)]
@@ -264,7 +280,7 @@ def h_vi_any(ctx, cfg):
 def h_args(ctx, cfg):
     core = ctx.mod("batchie.core")
     sampling = ctx.mod("batchie.sampling")
-    m = _mk_model(core)
+    m = _mk_model(core, ctx)
     full = dict(n_chains=1, chain_index=0, n_burnin=0, thin=1)
     for missing in full:
         kw = {k: v for k, v in full.items() if k != missing}
